@@ -351,8 +351,17 @@ class NegateExpression(UnaryExpression):
         binary_types = (
             AddExpression,
             SubtractExpression,
+            DivideExpression,
         )
-        if isinstance(inner, binary_types) or self._minus_would_rebind(f"{inner}"):
+        # A product or quotient is negated as a whole, so it has to stay grouped when
+        # the negation sits in a tight spot like "x / -(y * z)". The compact "4x" form
+        # is a single factor already.
+        is_product = isinstance(inner, MultiplyExpression) and not inner.is_compact()
+        if (
+            isinstance(inner, binary_types)
+            or is_product
+            or self._minus_would_rebind(f"{inner}")
+        ):
             inner = f"({inner})"
         return self.with_color("-{}".format(inner))
 
@@ -607,19 +616,26 @@ class MultiplyExpression(BinaryExpression):
     def operate(self, one: NumberType, two: NumberType) -> NumberType:
         return one * two
 
+    def is_compact(self) -> bool:
+        """Return True if this is a constant*variable or constant*variable^power
+        product, which prints without an operator, e.g. `4x`"""
+        left, right = self._check()
+        if not isinstance(left, ConstantExpression):
+            return False
+        # const * var
+        one = isinstance(right, VariableExpression)
+        # const * var^power
+        two = isinstance(right, PowerExpression) and isinstance(
+            right.left, VariableExpression
+        )
+        return one or two
+
     def __str__(self) -> str:
         """Multiplication special cases constant*variable to output `4x` instead of
         `4 * x`"""
         left, right = self._check()
-        if isinstance(left, ConstantExpression):
-            # const * var
-            one = isinstance(right, VariableExpression)
-            # const * var^power
-            two = isinstance(right, PowerExpression) and isinstance(
-                right.left, VariableExpression
-            )
-            if one or two:
-                return self.with_color(f"{left}{right}")
+        if self.is_compact():
+            return self.with_color(f"{left}{right}")
         return super().__str__()
 
     def to_math_ml_fragment(self) -> str:
@@ -695,8 +711,11 @@ class PowerExpression(BinaryExpression):
         # The exponent applies to what is written directly before it, so a negation,
         # a product (including the compact "4x" form) or another power that is the
         # base needs parentheses: (-x)^2, (4x)^2, (x^y)^z
-        base_types = (NegateExpression, MultiplyExpression, PowerExpression)
-        if isinstance(self.left, base_types) and not left.startswith("("):
+        # (a product that is not in the compact form has its parentheses already)
+        compact_product = (
+            isinstance(self.left, MultiplyExpression) and self.left.is_compact()
+        )
+        if isinstance(self.left, (NegateExpression, PowerExpression)) or compact_product:
             left = f"({left})"
         # x^(y^z) is not (x^y)^z
         if isinstance(self.right, PowerExpression):
